@@ -60,7 +60,7 @@ def run(ctx):
                       {"kind": "tlc", "module": "Book"})
     ctx.cov["states"] += res["distinct"]
     ctx.cov["transitions"] += res["generated"]
-    ctx.cov["evaluations"] += cnt["edges"]
+    ctx.cov["evaluations"] += len(w)          # one walk entry per edge, plus the root
     ctx.cov["distinct_nontrivial"] += len(spec_fen)
     ctx.cov["traces_validated_against_impl"] += len(w)
     ctx.cov["exhaustive"] = True
